@@ -395,6 +395,122 @@ theorem unnamed_terminates {S : Schema} : ∀ (n : Nat) (M : Struct), flatWithin
       simp only [expandUnnamedStruct, hasPlaceholder_eq, hno', Bool.not_false, if_true]
       simp [spliceOnce, hfs, bind, Except.bind, pure, Except.pure, hM']
 
+theorem expandUnnamedStruct_name {S : Schema} : ∀ (k : Nat) (M M' : Struct), expandUnnamedStruct S k M = .ok M' → M'.name = M.name := by
+  intro k
+  induction k with
+  | zero =>
+    intro M M' hs
+    simp only [expandUnnamedStruct] at hs
+    split at hs
+    · simp [throw, throwThe, MonadExceptOf.throw] at hs
+    · simp [pure, Except.pure] at hs; rw [hs]
+  | succ k ih =>
+    intro M M' hs
+    simp only [expandUnnamedStruct] at hs
+    split at hs
+    · obtain ⟨M1, hM1, hrest⟩ := bind_eq_ok.mp hs
+      rw [ih _ _ hrest, spliceOnce_name hM1]
+    · simp [pure, Except.pure] at hs; rw [hs]
+
+theorem processStructs_unnamed_total {n : Nat} (hn : 0 < n) (structNames : List String) :
+    ∀ (todo done : Schema), (Schema.names (done ++ todo)).Nodup → dbuFrom unnamedRefs (Schema.names done) todo = true → allFlat done →
+      (∀ d ∈ done ++ todo, d.name ∈ structNames → ∃ R, d = Decl.struct R) →
+      (∀ M, Decl.struct M ∈ todo → ∀ t ∈ unnamedRefs M.fields, t ∈ structNames) →
+      ∃ F, processStructs (fun cur M => expandUnnamedStruct cur n M) done todo = .ok F := by
+  intro todo
+  induction todo with
+  | nil => intro done _ _ _ _ _; exact ⟨done, rfl⟩
+  | cons d rest ih =>
+    intro done hnd hdbu hflat hkind hrefs
+    simp only [dbuFrom, Bool.and_eq_true] at hdbu
+    cases d with
+    | struct M =>
+      obtain ⟨k, rfl⟩ : ∃ k, n = k + 1 := ⟨n - 1, by omega⟩
+      have hrefsM := hdbu.1
+      simp only [List.all_eq_true, decide_eq_true_eq] at hrefsM
+      -- every unnamed inline of `M` resolves, in the current state, to an already expanded struct
+      have hflatM : flatWithin (done ++ Decl.struct M :: rest) (k + 1) M.fields := by
+        intro t ht
+        have htdone : t ∈ Schema.names done := hrefsM t ht
+        obtain ⟨d', hd', hname⟩ := List.mem_map.mp htdone
+        obtain ⟨R, rfl⟩ := hkind d' (List.mem_append_left _ hd') (by rw [hname]; exact hrefs M List.mem_cons_self t ht)
+        have hdis := (List.nodup_append.mp (by simpa using hnd)).2.2
+        have hnX : t ∉ Schema.names (Decl.struct M :: rest) := fun hin => hdis t htdone t hin rfl
+        have hnd_done : (Schema.names done).Nodup := (List.nodup_append.mp (by simpa using hnd)).1
+        refine ⟨R, ?_, flatWithin_of_noPlaceholders (hflat R hd') k⟩
+        rw [lookup_append_of_not_mem _ _ _ hnX, ← hname]
+        exact lookup_of_mem hnd_done hd'
+      obtain ⟨M', hM', hno⟩ := unnamed_terminates (k + 1) M hflatM
+      have hname : M'.name = M.name := expandUnnamedStruct_name _ _ _ hM'
+      have := ih (done ++ [Decl.struct M'])
+        (by simpa [Decl.name, hname] using hnd)
+        (by simpa [Decl.name, hname] using hdbu.2)
+        (by
+          intro X hX
+          rcases List.mem_append.mp hX with hX | hX
+          · exact hflat X hX
+          · simp at hX; subst hX; exact hno)
+        (by
+          intro x hx hxs
+          rcases List.mem_append.mp hx with hx | hx
+          · rcases List.mem_append.mp hx with hx | hx
+            · exact hkind x (List.mem_append_left _ hx) hxs
+            · simp at hx; subst hx; exact ⟨M', rfl⟩
+          · exact hkind x (List.mem_append_right _ (List.mem_cons_of_mem _ hx)) hxs)
+        (fun X hX => hrefs X (List.mem_cons_of_mem _ hX))
+      obtain ⟨F, hF⟩ := this
+      exact ⟨F, by simp [processStructs, hM', bind, Except.bind, hF]⟩
+    | alias a =>
+      have := ih (done ++ [Decl.alias a]) (by simpa using hnd) (by simpa using hdbu.2)
+        (by
+          intro X hX
+          rcases List.mem_append.mp hX with hX | hX
+          · exact hflat X hX
+          · simp at hX)
+        (by
+          intro x hx hxs
+          exact hkind x (by simpa using hx) hxs)
+        (fun X hX => hrefs X (List.mem_cons_of_mem _ hX))
+      obtain ⟨F, hF⟩ := this
+      exact ⟨F, by simp [processStructs, hF]⟩
+    | enum e =>
+      have := ih (done ++ [Decl.enum e]) (by simpa using hnd) (by simpa using hdbu.2)
+        (by
+          intro X hX
+          rcases List.mem_append.mp hX with hX | hX
+          · exact hflat X hX
+          · simp at hX)
+        (by
+          intro x hx hxs
+          exact hkind x (by simpa using hx) hxs)
+        (fun X hX => hrefs X (List.mem_cons_of_mem _ hX))
+      obtain ⟨F, hF⟩ := this
+      exact ⟨F, by simp [processStructs, hF]⟩
+
+/-- **expandUnnamed_total** (schema-level termination and success of the unnamed phase): when names are distinct, every unnamed
+    inline names an earlier declaration, and that declaration is a struct, `expand_unnamed_inlines` returns - the fuel of the
+    model (`S.length` passes per struct) is never exhausted and no reference fails to resolve. -/
+theorem expandUnnamed_total {S : Schema} (hnd : (Schema.names S).Nodup) (hdbu : dbuFrom unnamedRefs [] S = true)
+    (hstruct : ∀ M, Decl.struct M ∈ S → ∀ t ∈ unnamedRefs M.fields, ∀ d ∈ S, d.name = t → ∃ R, d = Decl.struct R) :
+    ∃ F, expandUnnamed S = .ok F := by
+  cases S with
+  | nil => exact ⟨[], rfl⟩
+  | cons d rest =>
+    unfold expandUnnamed
+    let structNames : List String := ((d :: rest).filterMap Decl.struct?).flatMap fun M => unnamedRefs M.fields
+    refine processStructs_unnamed_total (by simp) structNames (d :: rest) [] (by simpa using hnd) (by simpa using hdbu)
+      (by intro M hM; cases hM) ?_ ?_
+    · intro x hx hxs
+      simp only [List.nil_append] at hx
+      obtain ⟨M, hM, ht⟩ := List.mem_flatMap.mp hxs
+      obtain ⟨dM, hdM, hs⟩ := List.mem_filterMap.mp hM
+      cases dM with
+      | struct M' => simp [Decl.struct?] at hs; subst hs; exact hstruct M' hdM x.name ht x hx rfl
+      | alias a => simp [Decl.struct?] at hs
+      | enum e => simp [Decl.struct?] at hs
+    · intro M hM t ht
+      exact List.mem_flatMap.mpr ⟨M, List.mem_filterMap.mpr ⟨_, hM, rfl⟩, ht⟩
+
 /-- in declared-before-use order one pass per struct is enough: the whole phase is the single pass `spliceOnce` against the final
     schema, and nothing is left to expand -/
 theorem unnamed_single_pass {S1 F : Schema} (h1 : (Schema.names S1).Nodup ∧ dbuFrom unnamedRefs [] S1 = true)
@@ -502,13 +618,91 @@ example : ((StructField.copy "aa" ({ name := "len", fieldType := .int ⟨true, 2
 
 example : ∀ s, prefixRef "aa" s ≠ fillPlaceholder := prefixRef_ne_fill (p := "aa") (c := 'a') (cs := ['a']) rfl (by decide)
 
+/-! ## the boundary of `DeclaredBeforeUse`, from the other side (the recorded findings as theorems) -/
+
+private def u8' : FieldType := .int ⟨true, 1, none⟩
+
+/-- a use site declared BEFORE the template it names, the template itself holding a named inline -/
+def lateTemplateSchema : Schema :=
+  [ .struct { name := "Site", fields := [.field { name := "aa", fieldType := .named "Outer", disposition := some "inline" }] },
+    .struct { disposition := some "inline", name := "Outer", fields :=
+      [ .field { name := "bb", fieldType := .named "Inner", disposition := some "inline" }, .field { name := "yy", fieldType := u8' } ] },
+    .struct { disposition := some "inline", name := "Inner", fields := [.field { name := "xx", fieldType := u8' }] } ]
+
+/-- what the single pass in declaration order makes of it: `Site` copies `Outer` before `Outer` is expanded, the copied named
+    inline `aa_bb` is never looked at again -/
+def lateTemplateResult : Schema :=
+  [ .struct { name := "Site", fields :=
+      [ .field { name := "aa_bb", fieldType := .named "Inner", disposition := some "inline" }, .field { name := "aa_yy", fieldType := u8' } ] },
+    .struct { disposition := some "inline", name := "Outer", fields :=
+      [ .field { name := "bb_xx", fieldType := u8' }, .field { name := "yy", fieldType := u8' } ] },
+    .struct { disposition := some "inline", name := "Inner", fields := [.field { name := "xx", fieldType := u8' }] } ]
+
+/-- **late_template_breaks_layout** (finding "template declared after its use"): without `DeclaredBeforeUse` the conclusion of
+    `expand_layout_eq_subst` fails - the model (like the Python) succeeds, but the layout of `Site` is NOT its declared layout with
+    the inline reference replaced by the members of the (final) template: a named inline is left in it.  Declared in dependency
+    order the same three structs satisfy the hypothesis and expand completely. -/
+theorem late_template_breaks_layout :
+    ¬ DeclaredBeforeUse lateTemplateSchema ∧
+    ((expandNamed lateTemplateSchema).toOption.bind fun S1 => (expandUnnamed S1).toOption) = some lateTemplateResult ∧
+    ¬ SubstLayout lateTemplateResult [.field { name := "aa", fieldType := .named "Outer", disposition := some "inline" }]
+        [ .field { name := "aa_bb", fieldType := .named "Inner", disposition := some "inline" }, .field { name := "aa_yy", fieldType := u8' } ] ∧
+    DeclaredBeforeUse lateTemplateSchema.reverse ∧
+    ((expandNamed lateTemplateSchema.reverse).toOption.bind fun S1 => (expandUnnamed S1).toOption).map
+        (fun F => F.map fun d => (d.name, d.struct?.map fun (M : Struct) => M.fields.filterMap Member.name?)) =
+      some [("Inner", some ["xx"]), ("Outer", some ["bb_xx", "yy"]), ("Site", some ["aa_bb_xx", "aa_yy"])] := by
+  refine ⟨by decide, by decide, ?_, by decide, by decide⟩
+  intro h
+  have hexp := SubstLayout.cons (F := lateTemplateResult)
+    (SubstMember.named { name := "aa", fieldType := .named "Outer", disposition := some "inline" } "Outer"
+      { disposition := some "inline", name := "Outer", fields :=
+          [ .field { name := "bb_xx", fieldType := u8' }, .field { name := "yy", fieldType := u8' } ] }
+      (by decide) rfl (by decide) (by decide))
+    SubstLayout.nil
+  have := subst_layout_unique h hexp
+  revert this
+  decide
+
+/-- a named inline of a template that holds an unnamed inline -/
+def templatePlaceholderSchema : Schema :=
+  [ .struct { name := "Base", fields := [.field { name := "xx", fieldType := u8' }] },
+    .struct { disposition := some "inline", name := "Outer", fields := [.inlinePlaceholder "Base" none, .field { name := "yy", fieldType := u8' }] },
+    .struct { name := "Site", fields := [.field { name := "aa", fieldType := .named "Outer", disposition := some "inline" }] } ]
+
+/-- **template_placeholder_rejected** (finding "named inline of a template that holds an unnamed inline"): `DeclaredBeforeUse` does
+    not make expansion succeed - the hypothesis `expandNamed S = .ok _` of the layout theorems is a real one.  The model rejects
+    the schema (the Python raises `AttributeError`); with the named inline removed the same declarations expand. -/
+theorem template_placeholder_rejected :
+    DeclaredBeforeUse templatePlaceholderSchema ∧ (expandNamed templatePlaceholderSchema).toOption = none ∧
+    ((expandNamed (templatePlaceholderSchema.take 2)).toOption.bind fun S1 => (expandUnnamed S1).toOption).isSome = true := by
+  decide
+
+/-- a chain of abstract structs, descendants declared first -/
+def abstractChainSchema : Schema :=
+  [ .struct { name := "Leaf", fields := [.inlinePlaceholder "Mid" none, .field { name := "zz", fieldType := u8' }] },
+    .struct { disposition := some "abstract", name := "Mid", fields := [.inlinePlaceholder "Top" none, .field { name := "yy", fieldType := u8' }] },
+    .struct { disposition := some "abstract", name := "Top", fields := [.field { name := "xx", fieldType := u8' }] } ]
+
+/-- **factory_type_depends_on_order**: outside `DeclaredBeforeUse` the recorded factory type is not the closest abstract ancestor:
+    `Leaf` records `Top` when the descendants are declared first and `Mid` (as `factory_type_closest_abstract` says) in dependency
+    order; the layouts agree. -/
+theorem factory_type_depends_on_order :
+    ¬ DeclaredBeforeUse abstractChainSchema ∧ DeclaredBeforeUse abstractChainSchema.reverse ∧
+    (expandUnnamed abstractChainSchema).toOption.map (fun F => F.map fun d => (d.name, d.struct?.map fun (M : Struct) =>
+        (M.factoryType, M.fields.filterMap Member.name?))) =
+      some [("Leaf", some (some "Top", ["xx", "yy", "zz"])), ("Mid", some (some "Top", ["xx", "yy"])), ("Top", some (none, ["xx"]))] ∧
+    (expandUnnamed abstractChainSchema.reverse).toOption.map (fun F => F.map fun d => (d.name, d.struct?.map fun (M : Struct) =>
+        (M.factoryType, M.fields.filterMap Member.name?))) =
+      some [("Top", some (none, ["xx"])), ("Mid", some (some "Top", ["xx", "yy"])), ("Leaf", some (some "Mid", ["xx", "yy", "zz"]))] := by
+  refine ⟨by decide, by decide, by decide, by decide⟩
+
 /-
 Stated, not proved:
 * `expand_layout_eq_subst` for acyclic schemas in arbitrary declaration order restricted to unnamed inlines (the layout does not
   depend on the order there; the Python agrees on every shuffled schema the harness generates).  The proof needs the invariant
   "the current members of every struct have the same full expansion as its declared members" through the `while` loop.
-* schema-level totality: `DeclaredBeforeUse S -> every inline reference names a struct -> exists F, expandUnnamed S1 = ok F`
-  (per struct this is `unnamed_terminates`).
+* totality of the NAMED phase (`expandNamed` can fail: template not inline, template holding an unnamed inline - see
+  `template_placeholder_rejected`); the unnamed phase is total by `expandUnnamed_total`.
 -/
 
 end SymbolVerif.C05
